@@ -160,6 +160,7 @@ func (rg *rootGeneratorPipeline) worker(ctx context.Context, wg *sync.WaitGroup,
 			if !ok {
 				return
 			}
+			verifPoint("generate.recv")
 
 			var (
 				sc      = bufio.NewScanner(strings.NewReader(block))
@@ -200,6 +201,7 @@ func (rg *rootGeneratorPipeline) worker(ctx context.Context, wg *sync.WaitGroup,
 			if root == nil {
 				continue // blank-only block
 			}
+			verifPoint("generate.send")
 			select {
 			case <-ctx.Done():
 				return
